@@ -213,6 +213,16 @@ def run(ctx):
     have34 = q.branches(sp, lambda a: a.is_call and a.callee_qp == 'FIX8::MessageBase::have' and a.args and a.args[0].strip(casts=True).value == 34)
     ctx.need(len(have34) == 1, 'have(MsgSeqNum) decision not found in send_process')
     carries = q.atom_edge(cfg, have34[0], True)
+    def is_header(n, depth=0):
+        """the expression is msg->Header(), or a local pointer/reference initialised from it"""
+        for y in n.walk():
+            if y.is_call and y.callee_qp == 'FIX8::Message::Header':
+                return True
+            if y.k == 'DeclRefExpr' and y.decl and y.decl.get('sc') == 'local' and depth < 2:
+                for (dn_, kind_, val_) in q.local_defs(sp, y.declid):
+                    if kind_ == 'init' and val_ is not None and is_header(val_, depth + 1):
+                        return True
+        return False
     new122 = [n for n in sp.all_nodes() if n.k == 'CXXNewExpr' and q.field_num(sp.tu.types[n.r['alloc']]['c']) == 122]
     new52 = [n for n in sp.all_nodes() if n.k == 'CXXNewExpr' and q.field_num(sp.tu.types[n.r['alloc']]['c']) == 52]
     new43 = [n for n in sp.all_nodes() if n.k == 'CXXNewExpr' and q.field_num(sp.tu.types[n.r['alloc']]['c']) == 43]
@@ -228,7 +238,7 @@ def run(ctx):
         if x.k == 'DeclRefExpr' and x.decl and q.field_num(sp.tu.types[x.decl['t']]['c']) == 52:
             rd = q.reaching_defs(sp, x.declid, x)
             outs = [dn for (dn, kind, val) in rd if kind == 'out' and dn.callee_qp == 'FIX8::MessageBase::get' and
-                    dn.obj is not None and any(c.callee_qp == 'FIX8::Message::Header' for c in q.calls_in(dn.obj))]
+                    dn.obj is not None and is_header(dn.obj)]
             if outs and all(cfg.dominates(cfg.vertex_of(o), cfg.vertex_of(new122[0])) for o in outs):
                 ok = True
                 getv = cfg.vertex_of(outs[0])
